@@ -59,7 +59,35 @@ def gen_script(rng, mi, ms, lim):
                     'nest_try', 'random', 'shake', 'mult', 'not', 'trunc',
                     'push2_past', 'raw', 'loop_count', 'reverse_swap',
                     'cache_flood', 'split_concat', 'nested_loops', 'eval_rec',
-                    'merkle_eval', 'big_item', 'depth_items'))
+                    'merkle_eval', 'big_item', 'depth_items', 'producer',
+                    'producer'))
+    if k == 'producer':
+        # small items, then an instruction whose RESULT can be larger than
+        # its operands (fixed-size digests, floats, carries, padded values)
+        n = min(ms, rng.choice((1, 1, 2, 3, 4)))
+        a, b = rbytes(rng, n), rbytes(rng, max(1, n - rng.randrange(0, 2)))
+        big = bytes([0x7f]) + b'\xff' * (n - 1)
+        tail = rng.choice((
+            O('SHA256'), O('SHA256') + O('SHA256'),
+            O('SHAKE256') + bytes([rng.choice((1, 2, ms & 0xff, 33, 64))]),
+            O('INT_TO_FLOAT'), O('DUP') + O('CONCAT'),
+            isa.push(big) + O('ADD_INTS') + b'\x02',
+            isa.push(big) + O('MULT_INTS') + b'\x02',
+            isa.push(big) + O('SUBTRACT_INTS') + b'\x02',
+            isa.push(b) + O('XOR'), isa.push(b) + O('OR'),
+            isa.push(b) + O('AND'), O('NOT'),
+            O('GET_VALUE') + b'\x09timestamp',
+            O('GET_MESSAGE') + b'\x00', O('DEPTH'),
+            O('RANDOM') + bytes([rng.choice((1, ms & 0xff, 33))]),
+            isa.push(b'\x01') + O('SPLIT'), O('SIZE') if 'SIZE' in isa.CODE
+            else O('DEPTH'),
+            O('DUP') + O('CONCAT_STR'), O('REVERSE') + b'\x01'))
+        wrapped = rng.choice((tail, tail, O('TRUE') + isa.IF(tail),
+                              isa.DEF(0, tail) + isa.CALL(0),
+                              O('TRUE') + isa.LOOP(O('POP0') + tail
+                                                   + O('FALSE'))))
+        return k, isa.push(a) + wrapped + rng.choice((b'', O('POP0')
+                                                       + O('TRUE')))
     if k == 'flood':
         n = max(0, mi + rng.choice((-2, -1, 0, 1, 2, 5))) if mi < 100 \
             else rng.choice((mi - 1, mi, mi + 1, mi + 3))
